@@ -74,6 +74,24 @@ theorem site_instances :
       insts.any fun J => J.factory == "caltech_acn" && J.topo == I.topo) = true := by
   decide +kernel
 
+/-- **The documented default ratings.**  Every factory (and the deprecated wrapper) called with NO arguments at
+    all — the defaults are those of the live signatures: Caltech 150 kW, JPL 45 kW / 150 kW, Office001 50 kW,
+    real (non-BASIC) EVSEs, and the 208 V topology of the site (`topo0/1/2`; another default voltage would be a
+    new topology).  The limits these objects carry equal the parsed formulas at those capacities (`instOk`), and
+    limits, EVSE maximum rates and continuity are identical to those of the same factory called with the
+    documented values passed explicitly.  (Pods 80 A, panels 100 / 225 A: `site_structure_*`.) -/
+theorem site_default_ratings :
+    (defaultInsts.map fun I => (I.factory, I.topo, I.basic, I.caps)) =
+      [("caltech_acn", 0, false, [(150, 1)]), ("jpl_acn", 1, false, [(45, 1), (150, 1)]),
+       ("office001_acn", 2, false, [(50, 1)]), ("CaltechACN", 0, false, [(150, 1)])] ∧
+    ((topos.take 3).map fun T => (T.site, T.nominalV)) =
+      [("caltech", (208, 1)), ("jpl", (208, 1)), ("office001", (208, 1))] ∧
+    defaultInsts.all instOk = true ∧
+    (defaultInsts.all fun I => insts.any fun J =>
+      J.topo == I.topo && J.basic == I.basic && J.caps == I.caps && J.limits == I.limits &&
+      J.maxRates == I.maxRates && J.continuous == I.continuous) = true := by
+  decide +kernel
+
 /-- the `voltage` argument only changes the EVSE voltages: six topologies (3 sites × {208, 240} V), all
     pass `topoOk` (every EVSE carries exactly the requested voltage), and erasing the voltages leaves
     three. -/
